@@ -42,6 +42,7 @@ func TestC12(t *testing.T) {
 			boundary := n == 0 || uint64(n) <= s.Q || uint64(n)%s.Q == 0 || s.Q == 1 || s.InCap == 0
 			o.NonTrivial = boundary && s.alwaysReady()
 			o.Err = CheckC12(s, tr)
+			o.NoShrink = tr.Spin
 			return o
 		},
 	})
@@ -57,7 +58,7 @@ func TestC19(t *testing.T) {
 			n, _, cl := s.Shape()
 			o := evid.Outcome{Classes: append(cl, "limit"), Summary: summary(s, tr)}
 			o.NonTrivial = uint64(n) >= s.Q
-			if tr.Deadlock != "" {
+			if tr.Deadlock != "" && len(tr.Leaked) == 0 {
 				o.Skip = "run did not complete"
 				return o
 			}
